@@ -169,6 +169,7 @@ theorem stepOpF_nf {y : FSim} (h : y.faults = []) (o : Op) : stepOpF y o = (step
     rfl
   | dropHandles => rfl
   | inject p cs aw => simp only [stepOpF, stepOp, injectAllF_nf 50 h]
+  | clone w => rfl
 
 /-- **without faults the fault-aware task is the verified model**: its runs are exactly the runs of `Jm.runOps` -/
 theorem runOpsF_noFaults (ops : List Op) {y : FSim} (h : y.faults = []) :
@@ -191,6 +192,7 @@ structure FInv (I : St → Prop) (SendOk : Prio → Ctl → Prop) : Prop where
   now : ∀ s t, I s → I { s with now := t }
   close : ∀ s, I s → I { s with closed := true }
   send : ∀ (x : Sim) p cs aw, (∀ c ∈ cs, SendOk p c) → I x.st → I (doSend x p cs aw).st
+  clone : ∀ (x : Sim) w, I x.st → I (cloneWaiter x w).st
 
 variable {I : St → Prop} {SendOk : Prio → Ctl → Prop}
 
@@ -284,6 +286,9 @@ theorem FInv.stepOpF (H : FInv I SendOk) {y : FSim} (o : Op) (ho : OpOkFor SendO
   | inject p cs aw =>
     simp only [Jf.stepOpF] at hz
     exact H.injectAllF p cs aw ho 50 h z hz
+  | clone w =>
+    simp only [Jf.stepOpF, List.mem_singleton] at hz; subst hz
+    exact H.clone _ _ h
 
 /-- every state of every run of every script under every fault script -/
 theorem FInv.runOpsF (H : FInv I SendOk) (ops : List Op) (hok : ∀ o ∈ ops, OpOkFor SendOk o) {y : FSim} (h : I y.x.st) :
@@ -395,6 +400,7 @@ theorem c04_finv : FInv Inv (fun _ _ => True) where
   now := fun s _ h => inv_congr (s := s) rfl rfl rfl h
   close := fun s h => inv_congr (s := s) rfl rfl rfl h
   send := fun _ p cs aw _ h => inv_doSend p cs aw h
+  clone := fun x w h => inv_stepOp (.clone w) h _ (by simp [stepOp])
 
 def initialF (cfg : Fixes) (behs : List Beh) (faults : List Fault) : FSim :=
   { x := { st := { cfg := cfg, behs := behs, hookSet := true, parked := true } }, faults := faults }
@@ -531,6 +537,7 @@ theorem c07_finv : FInv Inv7 ShapeOk where
   now := fun s _ h => inv7_quiet (s := s) ⟨⟨rfl, rfl, rfl, rfl, rfl, rfl, rfl, rfl⟩, rfl⟩ h
   close := fun s h => inv7_quiet (s := s) ⟨⟨rfl, rfl, rfl, rfl, rfl, rfl, rfl, rfl⟩, rfl⟩ h
   send := fun _ p cs aw hs h => inv7_doSend p cs aw hs h
+  clone := fun x w h => inv7_stepOp (.clone w) trivial h _ (by simp [stepOp])
 
 /-- **C07 when calls on the child fail** (repaired code, API-shaped sends): whatever kill / signal / wait calls fail,
     for every script and every race resolution, each control flag ever issued is still queued, already raised, or held
